@@ -744,6 +744,12 @@ def hist(p):
                     return recs[-1]
     finally:
         Outputs.create_output_folder = orig_create
+    # a parallel observation that failed: tasks of its other runs may have gone on writing into ITS directory
+    # after the exception surfaced — what it left is what is there at the end
+    loose = [x for x in recs if x["err"] is not None and mode == "dask"]
+    for x in loose:
+        _settle(parent / x["at"], quiet=0.2, limit=3.0)
+        x["files"] = _listing(parent / x["at"], pre_by_dir.get(x["at"], {}))
     final = []
     for top in sorted(parent.iterdir()):
         if top.is_dir():
